@@ -38,8 +38,17 @@ func (i *fieldIndex) UnmarshalJSON(data []byte) error {
 	i.Index = t.Index
 	i.nameSplit = fieldPath(i.Name)
 
+	if i.Index == nil {
+		i.Index = make([]*indexedField, 0)
+	}
+
 	for _, f := range i.Index {
-		f.valueTypeFromString(i.Cast)
+		if f == nil {
+			return fmt.Errorf("%w: null entry in index of field %s", ErrMalformedSchema, i.Name)
+		}
+		if err := f.valueTypeFromString(i.Cast); err != nil {
+			return fmt.Errorf("field %s: %w", i.Name, err)
+		}
 	}
 
 	i.objectIds = make(map[uint64]*indexedField)
